@@ -380,7 +380,9 @@ func (g *gen) fuzzRaw() Op {
 		rq.Path = "/v2/" + repo + "/" + r.str("manifests/"+ref, "blobs/"+g.fuzzDigest(), "tags/list", "referrers/"+g.fuzzDigest(), "blobs/uploads/", "blobs/uploads/"+sess)
 	}
 	q := []string{}
-	addQ := func(k, v string) { q = append(q, k+"="+strings.ReplaceAll(strings.ReplaceAll(v, " ", "+"), "&", "%26")) }
+	addQ := func(k, v string) {
+		q = append(q, k+"="+strings.ReplaceAll(strings.ReplaceAll(v, " ", "+"), "&", "%26"))
+	}
 	for i := r.intn(4); i > 0; i-- {
 		switch r.intn(11) {
 		case 0:
